@@ -96,6 +96,13 @@ def eval_doc(args):
         # property's "same elements, text and in-scope namespaces" is read as equality of multisets; the order difference is reported only
         if sorted(stream(full)) != sorted(stream(lazy)): problems.append('iteration multiset (tag, text, nsmap) differs')
         elif stream(full) != stream(lazy): reported.append('iteration order differs')
+        # iteration at deeper lazy depths: every element is yielded, those above the lazy depth included (multiset of tags; an element above the lazy depth is yielded when it
+        # starts, so its text may not have been read yet - text and namespaces at depths beyond 1 are reported only, like the rest of the deeper depths)
+        tags0 = sorted(e.tag for e in full.iter())
+        for depth in (2, 3):
+            for thin in (True, False):
+                lz = xmlschema.XMLResource(doc, lazy=depth, thin_lazy=thin)
+                if tags0 != sorted(e.tag for e in lz.iter()): problems.append(f'the elements yielded by iter() at lazy depth {depth} (thin_lazy={thin}) are not those of the loaded tree')
         # path-based processing of a lazy resource (the selection runs on the lazy XPath tree, chunk after chunk)
         root_tag = 't:r' if which < 3 else 'r'; child = {1: 't:item', 2: '*', 3: 'q', 4: '*'}[which]; nsm = {'t': 'urn:t'}
         paths = [f'/{root_tag}/{child}']
